@@ -19,6 +19,13 @@ fn c13_nesting_step() {
     let cur: u16 = kani::any();
     p.set_max_nesting_depth(limit);
     assert!(p.max_nesting_depth() == limit && p.settings().max_nesting_depth == limit);
+    // the other limits must survive nesting too (they are enforced inside nested constructs)
+    let star: usize = kani::any();
+    let rsize: usize = kani::any();
+    let dsize: usize = kani::any();
+    p.wildcard_set_star_limit(star);
+    p.regex_set_compiled_size_limit(rsize);
+    p.regex_set_dfa_size_limit(dsize);
     p.current_nesting_depth = cur;
     let res = p.with_increased_nesting("x");
     match &res {
@@ -26,6 +33,9 @@ fn c13_nesting_step() {
             assert!(cur < limit, "accepted although the depth already reached the limit");
             assert!(nested.current_nesting_depth == cur + 1, "depth not incremented by one");
             assert!(nested.settings == p.settings, "settings changed by nesting");
+            assert!(nested.wildcard_get_star_limit() == star && nested.regex_get_compiled_size_limit() == rsize
+                && nested.regex_get_dfa_size_limit() == dsize && nested.max_nesting_depth() == limit,
+                "a nested parser must keep every configured limit");
             assert!(std::ptr::eq(nested.scheme, p.scheme));
         }
         Err((LexErrorKind::NestingLimitExceeded { limit: l }, span)) => {
@@ -89,4 +99,35 @@ fn c13_settings_accessors() {
     assert!(p.wildcard_get_star_limit() == c);
     assert!(p.max_nesting_depth() == 128);
     kani::cover!(a == 0 && c == 3);
+}
+
+/// Same as c13_nesting_chain but deep enough to cross 255/256: every limit up
+/// to 300 against 300 nested constructs.
+#[kani::proof]
+#[kani::unwind(303)]
+fn c13_nesting_chain_deep() {
+    let scheme = dangling_scheme();
+    let limit: u16 = kani::any();
+    kani::assume(limit <= 300);
+    let settings = ParserSettings { max_nesting_depth: limit, ..ParserSettings::default() };
+    let mut p = FilterParser::with_settings(scheme, settings);
+    let mut accepted: u16 = 0;
+    let mut i = 0;
+    while i < 300 {
+        match p.with_increased_nesting("") {
+            Ok(n) => {
+                p = n;
+                accepted += 1;
+            }
+            Err(e) => {
+                std::mem::forget(e);
+                break;
+            }
+        }
+        i += 1;
+    }
+    assert!(accepted == limit, "exactly `limit` nested constructs must be accepted before the first rejection");
+    kani::cover!(limit == 256);
+    kani::cover!(limit == 300);
+    kani::cover!(limit == 0);
 }
